@@ -10,7 +10,7 @@ import (
 func init() { register("C11", propC11) }
 
 func propC11(c *Ctx) {
-	c.Explanation = "Decides structural necessary conditions of UDP datagram integrity for all inputs and schedules: (U1) every access to the receive-queue fields holds rcvMu (must-lockset); (U2) a datagram is enqueued only after the length check and the ready/closed/buffer-full test, all inside one critical section (drop-whole); (U3) the queued packet is a fresh object whose data is a Clone of the view after exactly one TrimFront(UDP header size) and no CapLength, and whose sender address is (NIC of the route, remote address of the id, source port of the header); (U4) rcvList.PushBack only in HandlePacket, Read removes the front element inside the critical section and returns that element's data and sender (FIFO, at most once), the byte accounting adds/subtracts the same packet's size; (U5) Write sends exactly one datagram per successful return with payload = Payload.Get(Payload.Size()) of the caller, local port of the endpoint and the destination port of the connect/To address, returns len(payload), and sends only after route resolution; (U6) the 16-bit UDP length cannot wrap: Write rejects payloads whose size plus the 8-byte header exceeds 65535 (interval analysis of sendUDP's narrowing conversion under that guard). (U7) the read side is closed (rcvClosed, after which HandlePacket drops whole datagrams) exactly when Shutdown is called with ShutdownRead or the endpoint is closed - no earlier shutdown state can suppress it - and nowhere else. (U8) the IPv4 reassembly key covers id, protocol and every byte of both addresses (shared with C08/F4): datagrams of different senders are never merged by reassembly. NOT decided: byte equality of delivered and sent data over histories; behaviour when the UDP length field is smaller than the IP payload (trailing bytes are delivered)."
+	c.Explanation = "Decides structural necessary conditions of UDP datagram integrity for all inputs and schedules: (U1) every access to the receive-queue fields holds rcvMu (must-lockset); (U2) a datagram is enqueued only after the length check and the ready/closed/buffer-full test, all inside one critical section (drop-whole); (U3) the queued packet is a fresh object whose data is a Clone of the view after exactly one TrimFront(UDP header size) and no CapLength, and whose sender address is (NIC of the route, remote address of the id, source port of the header); (U4) rcvList.PushBack only in HandlePacket, Read removes the front element inside the critical section and returns that element's data and sender (FIFO, at most once), the byte accounting adds/subtracts the same packet's size; (U5) Write sends exactly one datagram per successful return with payload = Payload.Get(Payload.Size()) of the caller, local port of the endpoint and the destination port of the connect/To address, returns len(payload), and sends only after route resolution; (U6) the 16-bit UDP length cannot wrap: Write rejects payloads whose size plus the 8-byte header exceeds 65535 (interval analysis of sendUDP's narrowing conversion under that guard). (U7) the read side is closed (rcvClosed, after which HandlePacket drops whole datagrams) exactly when Shutdown is called with ShutdownRead or the endpoint is closed - no earlier shutdown state can suppress it - and nowhere else. (U8) the IPv4 reassembly key covers id, protocol and every byte of both addresses (shared with C08/F4): datagrams of different senders are never merged by reassembly. (U9) link typestate of the packet list. NOT decided: byte equality of delivered and sent data over histories; behaviour when the UDP length field is smaller than the IP payload (trailing bytes are delivered)."
 	c.Assumptions = []string{"tcpip.Payload.Get(n) returns at most n bytes", "header accessors are pure between the guard and the use in HandlePacket"}
 	u1 := c.Rule("U1", "K4 lockset", "receive queue fields only under rcvMu", 20)
 	c.Locks().CheckGuards(c, u1, guardsUDP, nil)
@@ -219,6 +219,9 @@ func propC11(c *Ctx) {
 			c.Check(InstrDominates(pre[0].(ssa.Instruction), ul[0].(ssa.Instruction)), u5, FuncName(fn)+"/length-after-prepend", c.pos(ul[0]), "UDP length counts the 8 header bytes (UsedLength after Prepend)", "UDP length computed before the header was prepended")
 		}
 	}
+	u9 := c.Rule("U9", "typestate", "a queued datagram's list links are not read after its removal unless Remove preserves them", 2)
+	c.LinkTypestate(u9, "udp.udpPacketList", "udp.udpPacketEntry")
+
 	u8 := c.Rule("U8", "K5 (shared with C08/F4)", "fragments of different senders never share a reassembly queue: the IPv4 reassembly key covers id, protocol and every byte of both addresses", 5)
 	fragmentKeyRule(c, u8)
 
